@@ -386,6 +386,19 @@ def config_from_fits(filename: str) -> NssConfig:
     def s(key: str):
         return v("simulation " + key)
 
+    if s("spectrum id") == "powerspectrum":
+        spectrum = {
+            "id": s("spectrum id"),
+            "index": s("spectrum index"),
+            "lower_bound": s("spectrum lower_bound"),
+            "upper_bound": s("spectrum upper_bound"),
+        }
+    else:
+        spectrum = {
+            "id": s("spectrum id"),
+            "log_nu_energy": s("spectrum log_nu_energy"),
+        }
+
     c = {
         "detector": {
             "initial_position": {
@@ -418,10 +431,7 @@ def config_from_fits(filename: str) -> NssConfig:
             "max_azimuth_angle": s("max_azimuth_angle"),
             "max_cherenkov_angle": s("max_cherenkov_angle"),
             "mode": s("mode"),
-            "spectrum": {
-                "id": s("spectrum id"),
-                "log_nu_energy": s("spectrum log_nu_energy"),
-            },
+            "spectrum": spectrum,
             "tau_shower": {
                 "etau_frac": s("tau_shower etau_frac"),
                 "id": s("tau_shower id"),
